@@ -137,17 +137,19 @@ fn exec_custom(instr: u8, ints: usize, bools: usize, room: usize, value_seed: u6
         Ok(Err(e)) => {
             obs.hit("fault.custom-state-instruction-failed");
             obs.nontrivial(mix(fnv1a(name.as_bytes()), (ints * 64 + bools * 8 + room) as u64));
-            if e.state().int != pre.int || e.state().bool != pre.bool {
+            if e.state().int != pre.int || e.state().bool != pre.bool || e.state().out != pre.out {
                 out.push(Violation::new(
                     "error-state-unchanged",
                     format!("error-state:custom-state:{name}"),
                     format!(
-                        "{name} on a user-defined state (output with room for {room} bytes) failed ({}), but the stacks handed back differ: before int {:?} bool {:?} | carried int {:?} bool {:?}",
+                        "{name} on a user-defined state (output with room for {room} bytes) failed ({}), but the state handed back differs: before int {:?} bool {:?} output {:?} | carried int {:?} bool {:?} output {:?}",
                         e.error(),
                         pre.int,
                         pre.bool,
+                        String::from_utf8_lossy(&pre.out.data),
                         e.state().int,
-                        e.state().bool
+                        e.state().bool,
+                        String::from_utf8_lossy(&e.state().out.data)
                     ),
                 ));
             }
